@@ -547,8 +547,10 @@ func ReplayErc20(out *trace.W, script string) map[string]int {
 				amt = new(big.Int).Sub(Half256, amt)
 			}
 			if st.Kind == "send" {
-				if w.Acct[st.C] == nil {
-					continue // a contract cannot sign a native message
+				if w.Acct[st.C] == nil || st.A1 == "mod" || st.A1 == "zero" {
+					// outside the modelled environment: a contract cannot sign a native message, and x/bank refuses
+					// MsgSend to module accounts (blocked addresses)
+					continue
 				}
 				w.DoBankSend(out, st.T, st.C, st.A1, st.Amt.V, stats)
 				continue
